@@ -7,6 +7,9 @@ env:  VERIF_REPO        root of the tree to test (default /repo); rebuilt from i
       VERIF_SEED        integer seed of every random choice (default 1)
       VERIF_TIER        default tier (default quick)
       VERIF_REPLAY_DIR  where replay files of failures are written (default /verif/evidence/replay/)
+      VERIF_BOUNDED_PROCS        cores used (GOMAXPROCS of go test and worker goroutines of the injected test), default 8
+      VERIF_BOUNDED_GOTESTFLAGS  optional extra `go test` flags (e.g. "-race", "-gcflags=all=-N")
+      VERIF_BOUNDED_PART         development knob: only the cases of this kind (exh, shape, legacy ...)
 
 exit: 0 no failure, 1 at least one failure (BOUNDED-FAIL lines + REPLAY <path>), 2 infrastructure error.
 
@@ -20,6 +23,7 @@ import json
 import os
 import re
 import shutil
+import signal
 import subprocess
 import sys
 import time
@@ -35,7 +39,37 @@ PACKAGES = {
     "C16": ["array"], "C17": ["trie"], "C18": ["trie"], "C19": ["trie"], "C20": ["trie"],
 }
 RACE = {"C11"}
-TIMEOUT = {"quick": 600, "thorough": 1800}
+TIMEOUT = {"quick": 900, "thorough": 3600}
+
+
+CHILD = None
+
+
+def kill_child():
+    """terminate the go test process group (go test + the test binary)"""
+    c = CHILD
+    if c is not None and c.poll() is None:
+        try:
+            os.killpg(c.pid, signal.SIGKILL)
+        except Exception:  # noqa
+            pass
+        try:
+            c.wait(timeout=10)
+        except Exception:  # noqa
+            pass
+
+
+def on_signal(signum, frame):
+    kill_child()
+    sys.exit(2)  # runs the atexit cleanup of the temp dir
+
+
+def procs():
+    try:
+        n = int(os.environ.get("VERIF_BOUNDED_PROCS", "8") or "8")
+    except ValueError:
+        n = 8
+    return max(1, min(n, os.cpu_count() or 1))
 
 
 def die(msg, code=2):
@@ -109,20 +143,31 @@ def run_pkg(tmp, repo, prop, tier, seed, pkg, replay_input):
     })
     # many small short-lived allocations on 16 workers: a large GC target halves the wall time;
     # the soft memory limit keeps the test process at about 4 GB
+    # CPU cap: the machine is shared.  At most VERIF_BOUNDED_PROCS cores (default 8) for the go tool and
+    # for the worker pool of the injected test (it starts GOMAXPROCS workers); one package at a time.
+    env["GOMAXPROCS"] = str(procs())
     env.setdefault("GOGC", "1500")
     env.setdefault("GOMEMLIMIT", "4GiB")
     to = TIMEOUT[tier]
-    cmd = ["go", "test", "-overlay", ov, "-vet=off", "-count=1", "-timeout", "%ds" % to,
+    cmd = ["go", "test", "-p", "1", "-parallel", str(procs()), "-overlay", ov, "-vet=off", "-count=1", "-timeout", "%ds" % to,
            "-run", "^TestVerifBounded_%s$" % prop]
     if prop in RACE:
         cmd.append("-race")
+    # optional extra go test flags, e.g. VERIF_BOUNDED_GOTESTFLAGS="-race" or "-gcflags=all=-N"
+    extra = os.environ.get("VERIF_BOUNDED_GOTESTFLAGS", "").split()
+    cmd += [x for x in extra if x not in cmd]
     cmd.append("./%s/" % pkg)
+    global CHILD
+    CHILD = subprocess.Popen(cmd, cwd=repo, env=env, stdout=subprocess.PIPE, stderr=subprocess.STDOUT,
+                             universal_newlines=True, errors="replace", start_new_session=True)
     try:
-        p = subprocess.run(cmd, cwd=repo, env=env, stdout=subprocess.PIPE, stderr=subprocess.STDOUT,
-                           timeout=to + 120, universal_newlines=True, errors="replace")
-        text, rc = p.stdout, p.returncode
-    except subprocess.TimeoutExpired as e:
+        text, _ = CHILD.communicate(timeout=to + 120)
+        rc = CHILD.returncode
+    except subprocess.TimeoutExpired:
+        kill_child()
         return None, "go test did not finish within %d s" % (to + 120), 2
+    finally:
+        CHILD = None
     res = None
     if os.path.exists(out):
         try:
@@ -181,6 +226,9 @@ def main():
         die("VERIF_SEED must be an integer")
     replay_dir = os.environ.get("VERIF_REPLAY_DIR", "/verif/evidence/replay/") or "/verif/evidence/replay/"
 
+    signal.signal(signal.SIGTERM, on_signal)
+    signal.signal(signal.SIGINT, on_signal)
+    signal.signal(signal.SIGHUP, on_signal)
     tmp = subprocess.check_output(["mktemp", "-d"], universal_newlines=True).strip()
     atexit.register(lambda: shutil.rmtree(tmp, ignore_errors=True))
 
@@ -212,6 +260,7 @@ def main():
         results.append(res)
     merged = merge(results, prop, tier, seed)
     merged["wall_s"] = round(time.time() - t0, 2)
+    merged["procs"] = procs()
     merged["repo"] = repo
     if replay:
         merged["replay_of"] = os.path.abspath(replay)
